@@ -76,6 +76,7 @@ type harness struct {
 	eventConsumersLock sync.RWMutex
 
 	once  sync.Once
+	ctx   context.Context // the instance's context, set before the boundary flows are started
 	flows []*flow
 }
 
@@ -157,7 +158,11 @@ func newHarness(wr *wiring, idGenerator id.IGenerator, constructor constructor) 
 		if boundaryEvent.CancelActivity() {
 			actionTransformer = func(sequenceFlowId *schema.IdRef, action IAction) IAction {
 				node.cancellation.Do(func() {
-					<-node.activity.Cancel()
+					// the activity's goroutine stops answering once the context is done
+					select {
+					case <-node.activity.Cancel():
+					case <-node.ctx.Done():
+					}
 				})
 				return action
 			}
@@ -202,6 +207,7 @@ func (node *harness) run(ctx context.Context, sender tracing.ISenderHandle) {
 func (node *harness) NextAction(ctx context.Context, flow Flow) chan IAction {
 	node.once.Do(func() {
 		sender := node.tracer.RegisterSender()
+		node.ctx = ctx
 		go node.run(ctx, sender)
 		for i := range node.flows {
 			flowable := node.flows[i]
